@@ -9,7 +9,7 @@ Ops (`<sc>` = `blocked|admitted` `ok|err|panic`):
 * `conf <key> <sc>`  — model: the IR text of entry point `<key>` in the table written at the last
   regeneration (`Sentinel/Gen/adapters.ir`, the text twin of `Sentinel/Gen/Adapters.lean`), or `gone`.
   The implementation side (`corr C19`) answers with the IR extracted from the sources *now*.
-* `trace <key> <sc>` — model: the event trace `runProg` predicts for that entry point and scenario.
+* `trace <key> <sc> [variant]` — model: the event trace `runProg` predicts for that entry point and scenario.
   The implementation side are the dynamic harnesses (`go/c19/*`), which print the events they observed.
 
 `oracle` mode judges implementation lines with `conforms` / `conformsTrace`: `ok`, `bad …`,
@@ -83,7 +83,7 @@ def modelStep (tbl : List (String × List String)) (ts : List String) : Option S
       match lookup tbl k with
       | some ir => some (" ".intercalate ir)
       | none => some "gone"
-  | ["trace", k, b, h] =>
+  | ["trace", k, b, h] | ["trace", k, b, h, _] =>   -- optional fifth token: the harness variant
     match parseScenario? b h, lookup tbl k with
     | some sc, some ir =>
       match parseProg? k ir with
@@ -120,7 +120,7 @@ def oracleStep (ts : List String) (line : String) : Option String :=
     match parseScenario? b h with
     | some sc => some (judgeConf k sc res)
     | none => some "bad-op"
-  | ["trace", k, b, h], some res =>
+  | ["trace", k, b, h], some res | ["trace", k, b, h, _], some res =>
     match parseScenario? b h with
     | some sc => some (judgeTrace k sc res)
     | none => some "bad-op"
